@@ -29,6 +29,7 @@ var (
 	flagBudget = flag.Int("budget", 0, "driver: internal deadline in seconds (0 = tier default)")
 	flagOnly   = flag.String("only", "", "driver: only seeds whose listener/name contains this string")
 	flagTarget = flag.Int("target", 0, "manual runs: base port of a running worker; the unmutated seeds selected by -only are delivered to it")
+	flagMut    = flag.String("mut", "", "driver (manual runs): only the mutants whose description contains this string")
 	flagShow   = flag.Bool("show", false, "driver: print the answer classes of the unmutated seeds and the class counts per seed and mutation kind")
 )
 
